@@ -4,7 +4,7 @@
    and the packet handlers of Gossip/World.v (pkg/gossip/listener.go). *)
 From Coq Require Import List String NArith ZArith Bool.
 From Piko Require Import Base.Maps Base.Strs Gossip.Types Gossip.Local Gossip.Apply Gossip.Codec Gossip.World.
-From Piko Require Import GossipP.CodecP GossipP.ApplyP GossipP.WorldP.
+From Piko Require Import Gossip.Decode GossipP.CodecP GossipP.ApplyP GossipP.WorldP GossipP.DecodeP.
 Import ListNotations.
 Open Scope string_scope. Open Scope list_scope. Open Scope N_scope.
 
@@ -66,9 +66,26 @@ Theorem C13_local_untouched :
   /\ c_local (h_state (handle_packet c b max nows order)) = c_local c.
 Proof. exact handle_packet_own. Qed.
 
-(* PARTIAL (named): the decoder is not modelled; "decodes to" is established through the real decoder on every
-   run (correspondence), and a round-trip theorem decode (encode x) = cut x for a Gallina decoder is not part of
-   this development. The third-party decoder's termination/memory safety on hostile bytes is tested only. *)
+(* "...and decodes to a prefix of what was intended": the round trip through the truncating encoder and the decoder
+   of the canonical format (Gossip/Decode.v: what decodeDigest / decodeDelta read - entries until EOF, per node up to
+   the announced count or EOF). For every representable header and content (Go string lengths < 2^32, versions
+   < 2^64, counts < 2^63) and EVERY max: decoding the emitted bytes yields exactly the header and the cut - for a
+   delta: complete nodes in order, then at most one node with a strict prefix of its entries, nothing after it. *)
+Theorem C13_roundtrip_delta :
+  forall id addr dl max b, str_ok id -> str_ok addr -> Forall delta_entry_ok dl ->
+  encode_delta id addr dl max = Some b ->
+  exists parts, delta_cut dl parts /\ decode_delta b = Some (id, addr, parts).
+Proof. exact roundtrip_delta. Qed.
+
+Theorem C13_roundtrip_digest :
+  forall id addr rq dg max b, str_ok id -> str_ok addr -> Forall dig_ok dg ->
+  encode_digest id addr rq dg max = Some b ->
+  exists sent rest, dg = sent ++ rest /\ decode_digest b = Some (id, addr, rq, sent).
+Proof. exact roundtrip_digest. Qed.
+
+(* PARTIAL (named): Gossip/Decode.v models the decoder on the canonical grammar only; that the real ugorji decoder
+   agrees with it on emitted packets is checked on every run (the real decoder's output for every emitted packet is
+   compared with the model's cut), and its termination / memory safety on hostile bytes is tested, not proved. *)
 
 (* non-vacuity: a concrete delta that is cut inside its first node at max = 150 *)
 Example C13_example_cut :
@@ -88,4 +105,6 @@ Print Assumptions C13_at_least_one_entry.
 Print Assumptions C13_cut_maximal.
 Print Assumptions C13_replies_fit.
 Print Assumptions C13_local_untouched.
+Print Assumptions C13_roundtrip_delta.
+Print Assumptions C13_roundtrip_digest.
 Print Assumptions C13_example_cut.
